@@ -12,11 +12,27 @@ COMMON_ASSUME = [
     "one harness per concrete instantiation of a generic; other instantiations are outside the claim",
 ]
 
+TABLES_STUBS = [
+    "hashbrown (third-party table library) = /verif/shims/hashbrown: fixed-capacity inline arrays (capacity 4), linear search, no hashing; capacity overflow panics and is reported as 'bound too small'; std::collections::{HashMap,HashSet} of ascent/internal.rs, rel_index_read.rs and byods uf.rs are the same model through hook H1 (--cfg ascent_verif)",
+    "std::time::Instant::{now,elapsed} = constant instant / zero duration (clock_gettime is unsupported by Kani)",
+    "core::mem::swap = two typed moves (behaviourally identical; the real one loops over 8-byte chunks and moves pointers as integers)",
+    "alloc::alloc::realloc_nonnull = panic 'capacity of the table model exceeded (a Vec grew beyond its allocated capacity)': Vec growth is a bound of the harness, reported as 'bound too small' when reachable",
+]
+TABLES_ASSUME = [
+    "the table model's contract: a map is a finite partial function, a set is a finite set, iteration order = insertion order (remove moves the last entry into the hole); validated against std's tables by /verif/shims/hashbrown/tests/differential.rs",
+    "counterexamples are replayed with `cargo kani playback` of the same harness crate, i.e. against the table *model*, not against real hashbrown",
+]
+TABLES_FUNCS_C19 = [
+    "ascent::internal::{RelIndexWrite,RelIndexMerge,RelFullIndexWrite,RelFullIndexRead} for RelIndexType1, RelFullIndexType (HashBrownRelFullIndexType), LatticeIndexType, RelNoIndexType",
+    "ascent::rel_index_read::{RelIndexRead,RelIndexReadAll} for the same types and RelIndexCombined",
+    "ascent::rel::ToRelIndexType / ascent::to_rel_index::ToRelIndex0 (to_rel_index, to_rel_index_write) and the `&mut T` boilerplate impls of rel_index_boilerplate.rs",
+]
+
 PROPS = {
     "C16": {
-        "crate": BASE, "target": "kani-base",
-        "patterns": {"quick": ["c16::"], "thorough": ["c16::"]},
-        "min_harnesses": {"quick": 80, "thorough": 80},
+        "crate": BASE, "target": "kani-base", "env": {"RUSTFLAGS": "--cfg ascent_verif"},
+        "patterns": {"quick": ["c16::", "c16_sets::set_u8", "c16_sets::bounded_set"], "thorough": ["c16::", "c16_sets::"]},
+        "min_harnesses": {"quick": 99, "thorough": 101},
         "jobs": 16, "timeout": {"quick": 1500, "thorough": 3000},
         "level": "model_checking",
         "functions": ["ascent_base::lattice::{ord_lattice_impl! for u8,i8,u64,i128,usize; Option<T>; Box<T>; Rc<T>; Arc<T>; Reverse<T>}",
@@ -25,22 +41,38 @@ PROPS = {
                       "ascent_base::lattice::constant_propagation::ConstPropagation",
                       "ascent_base::lattice::set::Set / bounded_set::BoundedSet (kani/base/src/c16_sets.rs, small carriers)"],
         "bounds": "all pairs/triples of values over the full bit-width of every scalar component (no assumptions); no loops except Product<[T;N]> (N<=3, fully unwound)",
-        "stubs": [],
+        "stubs": ["std::collections::BTreeSet -> ascent_base::verif_set::BTreeSet (hook H3: heap-free finite-set model, capacity 4) for the Set / BoundedSet harnesses"],
         "assumptions": COMMON_ASSUME + [
             "bool-bearing instantiations are not run: Kani 0.68 mis-encodes `<=`/`>=` on bool operands (non-reproducing counterexample a=true,b=false); the same macro body is decided for u8/i8/u64/i128/usize",
         ],
     },
     "C17": {
-        "crate": BASE, "target": "kani-base",
-        "patterns": {"quick": ["c17::"], "thorough": ["c17::"]},
-        "min_harnesses": {"quick": 16, "thorough": 16},
-        "jobs": 16, "timeout": {"quick": 1500, "thorough": 3000},
+        "crate": BASE, "target": "kani-base", "env": {"RUSTFLAGS": "--cfg ascent_verif"},
+        "patterns": {"quick": ["c17::"], "thorough": ["c17::", "c17w::"]},
+        "min_harnesses": {"quick": 17, "thorough": 18},
+        "jobs": 16, "timeout": {"quick": 1500, "thorough": 5400},
         "level": "model_checking",
         "functions": ["ascent::aggregators::{min,max,sum,count,mean,percentile,not}"],
-        "bounds": "inputs: every multiset of <= 4 values (u8 / i16 over their full range), symbolic length; percentile: length enumerated 0..4 by instantiation, p every integer percent 0..=100 (rank oracle) and every f64 in [0,100] (totality + membership); unwind 7",
+        "bounds": "inputs: every multiset of <= 4 values (u8 / i16 over their full range), symbolic length; percentile: length enumerated 0..4 by instantiation, p every integer percent 0..=100 (rank oracle) and every f64 in [0,100] (totality + membership); rank arithmetic additionally on the concrete sorted input 0..50 (thorough: 0..100) with symbolic integer p; unwind 7 / 52 / 102",
         "stubs": [],
         "assumptions": COMMON_ASSUME + ["sum: precondition 'the mathematical sum fits in the item type' (overflow is outside the property)",
                                        "inputs longer than 4 items are outside the claim"],
+    },
+    "C19": {
+        "crate": TABLES, "target": "kani-tables",
+        "patterns": {"quick": ["c19::quick::"], "thorough": ["c19::"]},
+        "min_harnesses": {"quick": 10, "thorough": 13},
+        "jobs": 8, "timeout": {"quick": 1500, "thorough": 3000},
+        "extra": ["-Z", "stubbing"], "env": {"RUSTFLAGS": "--cfg ascent_verif"},
+        "level": "model_checking",
+        "functions": TABLES_FUNCS_C19,
+        "bounds": "keys and values from 3 constants; new/delta/total filled by symbolic insert sequences of <= 2 slots each (RelFullIndexType<(u8,u8),()>, RelFullIndexType<(u8,),usize>, LatticeIndexType<(u8,),usize>, RelNoIndexType) resp. <= 1 delta + <= 1 total slot for the merge of the Vec-backed RelIndexType1<(u8,),(u8,)> / ToRelIndexType (<= 3 slots for insert/lookup/iterate, 2+2 for the combined view); every key of the domain is observed through a symbolic query key; table capacity 4; unwind 2..3 (7 for RelNoIndexType). thorough adds 2-against-1 merges of RelIndexType1 (both outcomes of the per-key vector swap), which did not finish within 900 s when measured",
+        "stubs": TABLES_STUBS,
+        "assumptions": COMMON_ASSUME + TABLES_ASSUME + [
+            "serial index types only; the concurrent (c_*) types, freeze/unfreeze and thread interleavings are outside the claim",
+            "RelFullIndexType with a key present in both delta and total: the merged value is asserted to be one of the two (which one depends on the relative sizes); generated code never creates that situation with different values",
+            "RelIndexType1 merge: at most one entry in delta and one in total in the quick tier, so the size-based swap and the per-key vector swap are exercised only in their 'equal' outcome there (the 2-against-1 harnesses are in the thorough tier)",
+        ],
     },
 }
 
